@@ -30,6 +30,20 @@ theorem C05_commonkey_dev0 (D : Bytes → Bytes → Bytes) (e : Engine) (tk tid 
   simp only [hk]
   split <;> (try split) <;> simp [Engine.setNormal, Engine.upd]
 
+/-- **engine history**: the title key a ticket yields (and whether loading it raises) does not depend on anything the engine
+    loaded before — other tickets with other common-key indices, the dev index-0 key installed directly as a normal key —
+    only on KeyX of the common-key slot and the retail/dev flavour, and no ticket load changes those -/
+theorem C05_titlekey_history (D : Bytes → Bytes → Bytes) (e : Engine) (prior : List Bytes) (tk tid : Bytes) (idx x : Nat)
+    (hx : e.keyX 0x3D = some x) :
+    let e' := prior.foldl (fun g t => (Engine.loadFromTicket D g t).1) e
+    (Engine.loadEncryptedTitlekey D e' tk idx tid).2 = (Engine.loadEncryptedTitlekey D e tk idx tid).2 ∧
+    ((Engine.loadEncryptedTitlekey D e' tk idx tid).2 = none →
+      (Engine.loadEncryptedTitlekey D e' tk idx tid).1.normal 0x40 =
+        (Engine.loadEncryptedTitlekey D e tk idx tid).1.normal 0x40) := by
+  intro e'
+  have hk := tickets_keep_x D prior e
+  exact titlekey_history D e' e tk tid idx hk.2 x (by rw [hk.1]; exact hx) hx
+
 /-- content selection: an active content the TMD lacks is detected -/
 theorem C05_missing_detected (active tmdIdx : List Nat) :
     (active.any fun c => !(tmdIdx.filter fun x => active.contains x).contains c) = true ↔
